@@ -551,6 +551,10 @@ func init() {
 		checkJSONNumber(r, prog, a, "c02")
 		checkElementTransparency(r, prog, a, "c02")
 		checkDerefHelpers(r, prog, "c02")
+		r.importing = "C06"
+		checkQuantifier(r, prog, a, "c06") // … and inside any/all: an element's error ends the fold as an error
+		r.importing = "C05"
+		checkValueLookup(r, prog, a, "c05") // the value compared is the value the selector denotes, a nil one included (it is not "absent")
 		r.importing = "C03"
 		checkConnectives(r, prog, a, "c03") // "bad literals are errors" wherever the comparison stands: under `not`, on either side of `and`/`or`
 		r.importing = "C09"
